@@ -802,7 +802,44 @@ def run_c09(ctx):
                 return c.reap(allow_incomplete=True)
             return c.reap_combos_to_ds(allow_incomplete=True, to_df=(form == "df"), **kw)
 
-        res, _ = m.call("reaper", f, oracle="partial-reap-raised")
+        if t.flag(1, 6, "partial-reap-read-error"):
+            # a transient I/O error (EIO) on one of the reaper's accesses to a finished
+            # result: the reap may fail - it must not show that batch as missing
+            import errno as _errno
+
+            armed = {"on": True, "skip": t.choose(4, "read-error-skip")}
+            at_kind = t.pick(["open-r", "read"], "read-error-at")
+            resdir_ = os.path.join(m.location, "results")
+
+            def hook(world, actor, kind_, path, detail):
+                if armed["on"] and kind_ == at_kind and isinstance(path, str) \
+                        and os.path.dirname(path) == resdir_:
+                    if armed["skip"] > 0:
+                        armed["skip"] -= 1
+                        return None
+                    armed["on"] = False
+                    world.fired["read-error@" + kind_] += 1
+                    return OSError(_errno.EIO, os.strerror(_errno.EIO), path)
+                return None
+
+            m.w.fault_hook = hook
+            try:
+                res, exc = m.call("reaper", f, must_succeed=False)
+            finally:
+                m.w.fault_hook = None
+            if exc is not None:
+                if armed["on"]:
+                    raise Violation("partial-reap-raised", "{}: {}".format(
+                        type(exc).__name__, short(str(exc), 200)), site=xyz_site(exc))
+                ctx.stats["partial-reap-failed-on-read-error"] += 1
+                if G.snapshot_tree(m.location) != before:
+                    raise Violation("failed-partial-reap-changed-crop",
+                                    "a partial reap that raised {} changed the crop directory".format(
+                                        type(exc).__name__))
+                # the error was transient: the same reap now goes through
+                res, _ = m.call("reaper", f, oracle="partial-reap-raised")
+        else:
+            res, _ = m.call("reaper", f, oracle="partial-reap-raised")
         what = "partial-reap-" + form
         if form == "raw":
             bad = compare_nested(res, sw, m.sort_combos, finished_locs())
